@@ -210,7 +210,7 @@ func (c ampCase) job(path string) *Job {
 	if c.t.file != 0 {
 		pre += fmt.Sprintf("local PATH = %q\n", path)
 	}
-	j := &Job{Name: "amp", Src: pre + c.t.src, M: c.m, Epi: true, Measure: true, WatchMs: 20000}
+	j := &Job{Name: "amp", Src: pre + c.t.src, M: c.m, Epi: true, Measure: true, Full: true, WatchMs: 20000}
 	if c.t.pro != "" {
 		j.Pro = fmt.Sprintf("local N = %d\n", c.n) + c.t.pro
 	}
